@@ -112,6 +112,12 @@ def run_complete(unit, em):
             for i in fn.d.get('inits') or []:
                 if i.get('n') and i.get('written'):
                     handled.add(i['n'])
+                elif i.get('n') and is_node(i.get('init')):
+                    # an in-class initialiser that binds the member to the object's own storage (`transl_{dict_, [this]...}`)
+                    # is exactly what a copy needs: the member must NOT be copied from the source (rule SELFREF)
+                    from .selfref import self_refs
+                    if self_refs(unit, fn, i['init'], i['n']):
+                        handled.add(i['n'])
             if not any(i.get('written') for i in fn.d.get('inits') or []):
                 continue
         if fn.body is not None:
